@@ -439,7 +439,7 @@ impl<'a> ReplyData<'a> {
             .find(|(_, reply_on)| reply_on == &ReplyOn::Success || reply_on == &ReplyOn::Always)
         {
             Some((method_name, reply_on)) if reply_on == &ReplyOn::Success => {
-                let payload_values = self.payload.iter().map(|field| field.name());
+                let payload_values = self.payload.emit_payload_bindings();
                 let payload_deserialization = self.payload.emit_payload_deserialization();
                 let data_deserialization = self.data.map(DataField::emit_data_deserialization);
                 let data = self.data.map(|_| quote! { data, });
@@ -456,7 +456,7 @@ impl<'a> ReplyData<'a> {
                 }
             }
             Some((method_name, reply_on)) if reply_on == &ReplyOn::Always => {
-                let payload_values = self.payload.iter().map(|field| field.name());
+                let payload_values = self.payload.emit_payload_bindings();
                 let payload_deserialization = self.payload.emit_payload_deserialization();
 
                 quote! {
@@ -494,7 +494,7 @@ impl<'a> ReplyData<'a> {
             .find(|(_, reply_on)| reply_on == &ReplyOn::Error || reply_on == &ReplyOn::Always)
         {
             Some((method_name, reply_on)) if reply_on == &ReplyOn::Error => {
-                let payload_values = self.payload.iter().map(|field| field.name());
+                let payload_values = self.payload.emit_payload_bindings();
                 let payload_deserialization = self.payload.emit_payload_deserialization();
 
                 quote! {
@@ -506,7 +506,7 @@ impl<'a> ReplyData<'a> {
                 }
             }
             Some((method_name, reply_on)) if reply_on == &ReplyOn::Always => {
-                let payload_values = self.payload.iter().map(|field| field.name());
+                let payload_values = self.payload.emit_payload_bindings();
                 let payload_deserialization = self.payload.emit_payload_deserialization();
 
                 quote! {
@@ -683,25 +683,36 @@ impl DataField for MsgField<'_> {
 }
 
 pub trait PayloadFields {
+    fn emit_payload_bindings(&self) -> Vec<Ident>;
     fn emit_payload_deserialization(&self) -> TokenStream;
     fn emit_payload_serialization(&self) -> TokenStream;
     fn is_payload_marked(&self) -> bool;
 }
 
 impl PayloadFields for Vec<&MsgField<'_>> {
+    /// Names under which the deserialized payload values are bound in the generated
+    /// `dispatch_reply`. They must not reuse the user's parameter names, as those could shadow
+    /// the bindings the dispatcher itself relies on (`deps`, `env`, `gas_used`, `events`, ...).
+    fn emit_payload_bindings(&self) -> Vec<Ident> {
+        self.iter()
+            .enumerate()
+            .map(|(index, field)| Ident::new(&format!("sv_payload_{}", index), field.name().span()))
+            .collect()
+    }
+
     fn emit_payload_deserialization(&self) -> TokenStream {
         let sylvia = crate_module();
+        let payload_bindings = self.emit_payload_bindings();
         if self.is_payload_marked() {
             // Safe to unwrap as we check if the payload exist.
-            let payload_value = self.first().unwrap().name();
+            let payload_value = payload_bindings.first().unwrap();
             return quote! {
                 let #payload_value = payload ;
             };
         }
 
-        let deserialized_payload_names = self.iter().map(|field| field.name());
         quote! {
-            let ( #(#deserialized_payload_names),* ) = #sylvia ::cw_std::from_json(&payload)?;
+            let ( #(#payload_bindings),* ) = #sylvia ::cw_std::from_json(&payload)?;
         }
     }
 
